@@ -399,4 +399,189 @@ theorem from_parts_value (e_max e_sub e_bias : Int) (mb : Nat) (S E M : Nat)
     refine ⟨y, hy, ⟨by rw [post.s]; exact hsg2, post.m_nonneg, post.p_pos, post.inf, post.nan⟩, ?_⟩
     rw [post.value, value_eq]; simp only []
     rw [val4_as_dy, hsg]
+/-- `convert` of a normalised mantissa (`2^a ≤ m < 2^(a+1)`, precision `2^a`) into a format in which the number is NORMAL
+    (`1 ≤ e + bias < e_mask`) and whose mantissa is at least as wide (`a ≤ mb`): exponent field `e + bias`, mantissa field the
+    fraction bits shifted up — nothing is lost -/
+theorem convertFinite_exact_normal (bias emask : Int) (mb a : Nat) (e m : Int)
+    (h0 : (2:Int)^a ≤ m) (h1 : m < (2:Int)^(a+1)) (ha : a ≤ mb) (he0 : 1 ≤ e + bias) (he1 : e + bias < emask) :
+    convertFinite bias emask ((2:Int)^mb) e m ((2:Int)^a) = some (e + bias, (m - (2:Int)^a) * (2:Int)^(mb - a)) := by
+  have hpa := two_pow_pos_int a
+  have h1' : m < 2 * (2:Int)^a := by rw [← two_pow_succ_int]; exact h1
+  unfold convertFinite
+  have c1 : ¬ (e < -(bias - 1)) := by omega
+  have c2 : (e == -(bias - 1) && decide ((2:Int)^a > m)) = false := by
+    have : ¬ ((2:Int)^a > m) := by omega
+    simp [this]
+  simp only [c1, c2, if_false, Bool.false_eq_true]
+  have c3 : ¬ (e + bias < 0) := by omega
+  have c4 : ¬ (e + bias ≥ emask) := by omega
+  have c5 : (e + bias == 0) = false := by simp; omega
+  have c6 : ¬ ((2:Int)^a > m) := by omega
+  simp only [c3, c4, c5, c6, if_false, Bool.false_eq_true, shl_one']
+  have c7 : ¬ (m ≥ (2:Int)^a * 2) := by omega
+  simp only [c7, if_false]
+  have hb := hidden_bit m a h0 h1
+  rw [hb.1, hb.2]
+  have c8 : ((2:Int)^a == 0) = false := by simp; omega
+  simp only [c8, Bool.false_eq_true, if_false]
+  have hstd : stdPrec ((2:Int)^mb) (m - (2:Int)^a) ((2:Int)^a) = some ((m - (2:Int)^a) * (2:Int)^(mb - a)) := by
+    apply stdPrec_exact
+    have : mb = (mb - a) + a := by omega
+    conv => lhs; rw [this, Int.pow_add]
+    ac_rfl
+  rw [hstd]; simp [Option.map]
+theorem dy_toRat_scale (n k : Int) (t : Nat) : Dy.toRat ⟨n * (2:Int)^t, k - (t : Int)⟩ = Dy.toRat ⟨n, k⟩ := by
+  unfold Dy.toRat
+  simp only []
+  rw [cast_mul_pow, ← zpow_sub_nat k t]
+  grind
+
+/-- a finite non-zero decoded number converted into a format where it is normal and fits: fields and value -/
+theorem convert_shape_exact (bias2 emask2 : Int) (mb1 mb2 : Nat) (x y : FPNum) (sh : AdjShape x y)
+    (hxp : x.p = (2:Int)^mb1) (hmb : mb1 ≤ mb2) (he0 : 1 ≤ y.e + bias2) (he1 : y.e + bias2 < emask2) :
+    ∃ M2 : Int, convertFinite bias2 emask2 ((2:Int)^mb2) y.e y.m y.p = some (y.e + bias2, M2) ∧
+      0 ≤ M2 ∧ M2 < (2:Int)^mb2 ∧
+      val4 y.s y.e y.m y.p = (y.s : Rat) * Dy.toRat ⟨(2:Int)^mb2 + M2, (y.e + bias2) - bias2 - (mb2 : Int)⟩ := by
+  obtain ⟨k, d, h1, -, -, -, -⟩ := sh.ex
+  obtain ⟨a, ha, hak⟩ := pow2_split y.p k mb1 sh.p_pos (by rw [← hxp]; exact h1)
+  have hn := sh.normal
+  rw [ha] at hn
+  have hpa := two_pow_pos_int a
+  have h1' : y.m < (2:Int)^(a+1) := by rw [two_pow_succ_int]; exact hn.2
+  refine ⟨(y.m - (2:Int)^a) * (2:Int)^(mb2 - a), ?_, ?_, ?_, ?_⟩
+  · rw [ha]; exact convertFinite_exact_normal bias2 emask2 mb2 a y.e y.m hn.1 h1' (by omega) he0 he1
+  · exact Int.mul_nonneg (by omega) (Int.le_of_lt (two_pow_pos_int _))
+  · have : mb2 = a + (mb2 - a) := by omega
+    conv => rhs; rw [this, Int.pow_add]
+    exact Int.mul_lt_mul_of_pos_right (by omega) (two_pow_pos_int _)
+  · rw [ha, val4_as_dy]
+    congr 1
+    have e1 : (2:Int)^mb2 + (y.m - (2:Int)^a) * (2:Int)^(mb2 - a) = y.m * (2:Int)^(mb2 - a) := by
+      have : mb2 = a + (mb2 - a) := by omega
+      conv => lhs; rw [this, Int.pow_add]
+      rw [Int.sub_mul]; have e : a + (mb2 - a) - a = mb2 - a := by omega
+      rw [e]; omega
+    rw [e1]
+    have e2 : y.e + bias2 - bias2 - (mb2 : Int) = (y.e - (a : Int)) - ((mb2 - a : Nat) : Int) := by omega
+    rw [e2, dy_toRat_scale]
+theorem shape_exp_bounds (mb : Nat) (x y : FPNum) (sh : AdjShape x y) (hxp : x.p = (2:Int)^mb) (hm : 0 < x.m) :
+    y.e ≤ x.e ∧ x.e - (mb : Int) ≤ y.e := by
+  obtain ⟨k, d, h1, h2, h3, h4, -⟩ := sh.ex
+  refine ⟨by omega, ?_⟩
+  rcases Nat.lt_or_ge mb d with c | c
+  · exfalso
+    -- 2^(mb+1) ≤ 2^d ≤ x.m·2^d = y.m·2^k < 2·y.p·2^k = 2^(mb+1)
+    have hk := two_pow_pos_int k
+    have hd := two_pow_pos_int d
+    have l1 := two_pow_le_int (mb+1) d c
+    have l2 : (2:Int)^d ≤ x.m * (2:Int)^d := by
+      have := Int.mul_le_mul_of_nonneg_right (show (1:Int) ≤ x.m by omega) (Int.le_of_lt hd)
+      omega
+    have l3 : y.m * (2:Int)^k < 2 * y.p * (2:Int)^k := Int.mul_lt_mul_of_pos_right sh.normal.2 hk
+    rw [Int.mul_assoc, ← h1, hxp, ← two_pow_succ_int] at l3
+    omega
+  · omega
+
+/-- **widening, generic formats**: decode with (e_max1, e_sub1 = 1 − bias1, bias1, mb1), convert into a format with
+    `mb1 ≤ mb2`, `bias1 + mb1 ≤ bias2` (every source subnormal is a target normal), `bias1 + bias2 < emask2`.
+    The result fields are in range, and: infinity ↦ infinity, ±0 ↦ ±0, every other number ↦ a NORMAL number whose value is the
+    value of the source FPNum. -/
+theorem widen_fields (e_max1 e_sub1 bias1 bias2 emask2 : Int) (mb1 mb2 : Nat) (nanM2 : Int) (S E M : Nat)
+    (hS : S < 2) (hE1 : (E : Int) ≤ e_max1) (hM1 : M < 2^mb1) (hnan : (E : Int) = e_max1 → M = 0)
+    (hsub : e_sub1 = 1 - bias1) (hmax1 : e_max1 ≤ 2 * bias1 + 1) (hmb : mb1 ≤ mb2) (hb12 : bias1 + (mb1 : Int) ≤ bias2)
+    (hmask : bias1 + bias2 < emask2) (hb1 : 1 ≤ bias1) :
+    ∃ x E2 M2, from_parts (S : Int) (E : Int) (M : Int) e_max1 e_sub1 bias1 mb1 = some x ∧
+      convertParts x bias2 emask2 ((2:Int)^mb2) nanM2 0 = some ((S : Int), E2, M2) ∧
+      0 ≤ M2 ∧ M2 < (2:Int)^mb2 ∧
+      (((E : Int) = e_max1 ∧ E2 = emask2 ∧ M2 = 0) ∨
+       ((E : Int) ≠ e_max1 ∧ E = 0 ∧ M = 0 ∧ E2 = 0 ∧ M2 = 0) ∨
+       ((E : Int) ≠ e_max1 ∧ ¬ (E = 0 ∧ M = 0) ∧ 1 ≤ E2 ∧ E2 < emask2 ∧
+          x.value = (if S = 0 then 1 else -1 : Rat) * Dy.toRat ⟨(2:Int)^mb2 + M2, E2 - bias2 - (mb2 : Int)⟩)) := by
+  have hsg : (((if ((S : Int) == 0) = true then (1:Int) else -1) : Int) : Rat) = (if S = 0 then 1 else -1 : Rat) := by
+    rcases (show S = 0 ∨ S = 1 by omega) with rfl | rfl <;> simp
+  have hM1' : (M : Int) < (2:Int)^mb1 := by rw [← nat_pow_cast]; exact Int.ofNat_lt.mpr hM1
+  have hmbpos := two_pow_pos_int mb1
+  have hmb2pos := two_pow_pos_int mb2
+  have hsign : (if (if ((S : Int) == 0) = true then (1:Int) else -1) > 0 then (0:Int) else 1) = (S : Int) := by
+    rcases (show S = 0 ∨ S = 1 by omega) with rfl | rfl <;> simp
+  unfold from_parts
+  simp only []
+  by_cases cmax : (E : Int) = e_max1
+  · have hm0 := hnan cmax
+    subst hm0
+    have : ((E : Int) == e_max1) = true := by simp [cmax]
+    simp only [this, if_true]
+    refine ⟨_, emask2, 0, rfl, ?_, by omega, hmb2pos, Or.inl ⟨cmax, rfl, rfl⟩⟩
+    rcases (show S = 0 ∨ S = 1 by omega) with rfl | rfl <;> simp [convertParts, set_semp, fresh]
+  · have : ((E : Int) == e_max1) = false := by simp [cmax]
+    simp only [this, Bool.false_eq_true, if_false, shl_one]
+    -- the common tail for a non-zero finite number
+    have tail : ∀ (e0 m0 : Int) (y : FPNum), 0 < m0 → m0 < 2 * (2:Int)^mb1 → 1 - bias1 ≤ e0 → e0 ≤ bias1 →
+        adjust_semp ({ s := (if ((S : Int) == 0) = true then 1 else -1), e := e0, m := m0, p := (2:Int)^mb1 } : FPNum) = some y →
+        ∃ E2 M2, convertParts y bias2 emask2 ((2:Int)^mb2) nanM2 0 = some ((S : Int), E2, M2) ∧ 0 ≤ M2 ∧ M2 < (2:Int)^mb2 ∧
+          1 ≤ E2 ∧ E2 < emask2 ∧ y.value = (if S = 0 then 1 else -1 : Rat) * Dy.toRat ⟨(2:Int)^mb2 + M2, E2 - bias2 - (mb2 : Int)⟩ := by
+      intro e0 m0 y hm0 hm1 he0 he1 hy
+      have post := adjust_semp_spec _ y (by exact hmbpos) (by show (0:Int) ≤ m0; omega) hy
+      have sh := adjust_semp_shape _ y (by exact hmbpos) (by exact hm0) (by exact hm1) hy
+      have hb := shape_exp_bounds mb1 _ y sh rfl (by exact hm0)
+      simp only [] at hb
+      obtain ⟨M2, hc, hM20, hM21, hv⟩ := convert_shape_exact bias2 emask2 mb1 mb2 _ y sh rfl hmb (by omega) (by omega)
+      have ym : (y.m == 0) = false := by
+        have := sh.normal; have := sh.p_pos
+        simp; omega
+      refine ⟨y.e + bias2, M2, ?_, hM20, hM21, by omega, by omega, ?_⟩
+      · unfold convertParts
+        have hinf : y.infinity = false := post.inf
+        have hnn : y.nan = false := post.nan
+        have hs : y.s = (if ((S : Int) == 0) = true then 1 else -1) := post.s
+        simp only [hinf, hnn, Bool.or_self, Bool.false_eq_true, if_false, hs, hsign, ym, hc, Option.map]
+      · rw [value_eq, hv, post.s, hsg]
+    by_cases ce0 : E = 0
+    · subst ce0
+      simp only [Int.natCast_zero, beq_self_eq_true, if_true]
+      rw [set_semp_finite _ _ _ _ hmbpos]
+      obtain ⟨y, hy⟩ := adjust_semp_total' ({ s := (if ((S : Int) == 0) = true then 1 else -1), e := e_sub1, m := (M : Int), p := (2:Int)^mb1 } : FPNum)
+        (by exact hmbpos) (by show (0:Int) ≤ (M : Int); omega)
+      by_cases cm0 : M = 0
+      · subst cm0
+        have post := adjust_semp_spec _ y (by exact hmbpos) (by show (0:Int) ≤ ((0:Nat) : Int); omega) hy
+        have hinf : y.infinity = false := post.inf
+        have hnn : y.nan = false := post.nan
+        have hs : y.s = (if ((S : Int) == 0) = true then 1 else -1) := post.s
+        have hz : y.m = 0 := post.zero.mp rfl
+        refine ⟨y, 0, 0, hy, ?_, by omega, hmb2pos, Or.inr (Or.inl ⟨cmax, by trivial, by trivial, rfl, rfl⟩)⟩
+        unfold convertParts
+        rcases (show S = 0 ∨ S = 1 by omega) with rfl | rfl <;> simp [hinf, hnn, hs, hz]
+      · obtain ⟨E2, M2, t1, t2, t3, t4, t5, t6⟩ := tail e_sub1 (M : Int) y (by omega) (by omega) (by omega) (by omega) hy
+        exact ⟨y, E2, M2, hy, t1, t2, t3, Or.inr (Or.inr ⟨cmax, by omega, t4, t5, t6⟩)⟩
+    · have ce0' : ((E : Int) == 0) = false := by simp; omega
+      simp only [ce0', Bool.false_eq_true, if_false]
+      rw [set_semp_finite _ _ _ _ hmbpos, lor_hidden_bit M mb1 hM1]
+      obtain ⟨y, hy⟩ := adjust_semp_total' ({ s := (if ((S : Int) == 0) = true then 1 else -1), e := (E : Int) - bias1, m := (2:Int)^mb1 + (M : Int), p := (2:Int)^mb1 } : FPNum)
+        (by exact hmbpos) (by show (0:Int) ≤ (2:Int)^mb1 + (M : Int); omega)
+      obtain ⟨E2, M2, t1, t2, t3, t4, t5, t6⟩ := tail ((E : Int) - bias1) ((2:Int)^mb1 + (M : Int)) y (by omega) (by omega) (by omega) (by omega) hy
+      exact ⟨y, E2, M2, hy, t1, t2, t3, Or.inr (Or.inr ⟨cmax, by omega, t4, t5, t6⟩)⟩
+theorem fields_of_sp (S E M : Nat) (hS : S < 2) (hE : E < 2^8) (hM : M < 2^23) :
+    IEEE.signOf IEEE.single (S * 2^31 + E * 2^23 + M) = S ∧ IEEE.expOf IEEE.single (S * 2^31 + E * 2^23 + M) = E ∧
+    IEEE.manOf IEEE.single (S * 2^31 + E * 2^23 + M) = M := by
+  unfold IEEE.signOf IEEE.expOf IEEE.manOf IEEE.single
+  simp only
+  refine ⟨?_, ?_, ?_⟩ <;> omega
+
+/-- `IEEE.decode` as a function of the three fields -/
+def decodeF (f : IEEE.Format) (S E M : Nat) : PyFloat :=
+  if E == 2 ^ f.ebits - 1 then (if M == 0 then .inf (S == 1) else .nan)
+  else if E == 0 then (if M == 0 then .fin (S == 1) ⟨0, 0⟩ else .fin (S == 1) ⟨M, 1 - f.bias - f.mbits⟩)
+  else .fin (S == 1) ⟨2 ^ f.mbits + M, (E : Int) - f.bias - f.mbits⟩
+
+theorem decode_eq_decodeF (f : IEEE.Format) (b : Nat) :
+    IEEE.decode f b = decodeF f (IEEE.signOf f b) (IEEE.expOf f b) (IEEE.manOf f b) := rfl
+
+theorem fields_of_dp (S E M : Nat) (hS : S < 2) (hE : E < 2^11) (hM : M < 2^52) :
+    IEEE.signOf IEEE.double (S * 2^63 + E * 2^52 + M) = S ∧ IEEE.expOf IEEE.double (S * 2^63 + E * 2^52 + M) = E ∧
+    IEEE.manOf IEEE.double (S * 2^63 + E * 2^52 + M) = M := by
+  unfold IEEE.signOf IEEE.expOf IEEE.manOf IEEE.double
+  simp only
+  refine ⟨?_, ?_, ?_⟩ <;> omega
+
 end C12
